@@ -11,6 +11,7 @@ CONSTANTS
   InitRems = {0, 500000}
   NTerms = 3
   ChainPeriods = {1, 2, 3, 4}
+  ChainTermInts = {6}
   Starts = {1, 2, 3}
   NodeAts = {"genesis", "tip"}
   KeepHist = FALSE
